@@ -95,6 +95,9 @@ type Profile struct {
 	CrossPkg  bool // bias towards several files, a sub-package first, and references across files
 	Collide   bool // add descriptors whose split names (path joined by "_") coincide
 	Clash     bool // add a message whose exposed oneof and a field get the same JSON property name
+	FlatCycle int  // >0: add a crafted cycle of that many messages each flattening the next (negative: with a chain leading into it)
+	FlatDeep  int  // >0: add a crafted chain of that many nested flatten levels, several properties of differing kinds at every level
+	OddPkg    bool // some package names APIFromImage cannot file: no version part, two version parts, two parts after the version
 }
 
 // Case is one generated descriptor set.
@@ -142,6 +145,9 @@ func (g *gen) chance(p int) bool   { return g.r.Chance(p) }
 func pick[T any](g *gen, xs []T) T { return xs[g.r.Intn(len(xs))] }
 
 var pkgNames = []string{"gen.a.v1", "gen.b.v1", "gen.a.v1.sub", "gen.c.v2", "gen.b.v1.topic", "gen.c.v2.service", "gen.d.v1.sandbox"}
+// package names around splitPackageParts: unversioned, "v1beta" (not a version part), two version parts,
+// two parts after the version, a bare version, a two-digit version with a sub-package
+var oddPkgNames = []string{"gen.x", "gen.f.v1beta", "gen.e.v1.v2", "gen.a.v1.s.t", "v3", "gen.g.v10.sub", "gen.h.v1x.v2"}
 var msgNames = []string{"Foo", "Bar", "Baz", "Qux", "FooKeys", "FooState", "FooData", "FooEvent", "Foo_Bar", "Thing", "Wrapper", "Node", "Tree", "Item", "Bar_Kind"}
 var nestedNames = []string{"Bar", "Inner", "Kind", "Part", "Keys", "Leaf"}
 var enumNames = []string{"Kind", "Status", "Color", "Bar_Kind", "Mode"}
@@ -167,6 +173,10 @@ func Generate(r *vh.Rand, p Profile, deps []*descriptorpb.FileDescriptorProto) *
 			if p.CrossPkg && g.chance(60) {
 				pkg = pick(g, []string{"gen.b.v1.topic", "gen.c.v2.service", "gen.d.v1.sandbox", "gen.a.v1.sub"})
 			}
+		}
+		if p.OddPkg && g.chance(50) {
+			pkg = pick(g, oddPkgNames)
+			g.tag("odd-package-name")
 		}
 		usedPkg[pkg]++
 		path := fmt.Sprintf("%s/f%d.proto", dotToSlash(pkg), fi)
@@ -195,6 +205,18 @@ func Generate(r *vh.Rand, p Profile, deps []*descriptorpb.FileDescriptorProto) *
 	}
 	if p.Supported {
 		repairSupported(c.Gen)
+	}
+	if p.FlatDeep > 0 {
+		addFlattenChain(c.Gen[0], p.FlatDeep)
+		g.tag(fmt.Sprintf("flatten-chain-crafted-%d", p.FlatDeep))
+	}
+	if p.FlatCycle != 0 {
+		n, lead := p.FlatCycle, false
+		if n < 0 {
+			n, lead = -n, true
+		}
+		addFlattenCycle(c.Gen[0], n, lead)
+		g.tag(fmt.Sprintf("flatten-cycle-crafted-%d", n))
 	}
 	return c
 }
@@ -765,6 +787,22 @@ func (g *gen) annotateMap(f, val *descriptorpb.FieldDescriptorProto) {
 		}
 		if g.chance(50) {
 			mr.Values = g.validateFor(val, g.wild())
+		}
+		if g.chance(45) {
+			// constraints on the KEYS of the map
+			sr := &validate.StringRules{}
+			switch g.r.Intn(4) {
+			case 0:
+				sr.Pattern = proto.String("^[a-z]+$")
+			case 1:
+				sr.MinLen, sr.MaxLen = proto.Uint64(1), proto.Uint64(uint64(g.r.Range(2, 40)))
+			case 2:
+				sr.WellKnown = &validate.StringRules_Uuid{Uuid: true}
+			case 3:
+				sr.MaxLen = proto.Uint64(uint64(g.r.Range(1, 64)))
+			}
+			mr.Keys = &validate.FieldConstraints{Type: &validate.FieldConstraints_String_{String_: sr}}
+			g.tag("validate-map-keys")
 		}
 		fc.Type = &validate.FieldConstraints_Map{Map: mr}
 		if g.wild() {
@@ -1719,6 +1757,76 @@ func addCollision(fd *descriptorpb.FileDescriptorProto, withRule bool) {
 	fd.MessageType = append(fd.MessageType, col, colKind, colInner)
 }
 
+
+// addFlattenCycle appends messages Cyc0 .. Cyc<n-1>, each with a flattened object field of the next
+// (the last of the first) and one scalar; with lead, a message CycLead flattens Cyc0 (a chain into
+// the cycle, itself not on it). The reader must refuse the cycle (checkFlattenCycle); if it does not,
+// ClientProperties recurses without end.
+func addFlattenCycle(fd *descriptorpb.FileDescriptorProto, n int, lead bool) {
+	opt := descriptorpb.FieldDescriptorProto_LABEL_OPTIONAL.Enum()
+	flat := func(target string) *descriptorpb.FieldDescriptorProto {
+		fo := &descriptorpb.FieldOptions{}
+		proto.SetExtension(fo, ext_j5pb.E_Field, &ext_j5pb.FieldOptions{Type: &ext_j5pb.FieldOptions_Object{Object: &ext_j5pb.ObjectField{Flatten: true}}})
+		return &descriptorpb.FieldDescriptorProto{Name: proto.String("next"), Number: proto.Int32(1), Label: opt,
+			Type: descriptorpb.FieldDescriptorProto_TYPE_MESSAGE.Enum(), TypeName: proto.String("." + fd.GetPackage() + "." + target), Options: fo}
+	}
+	for i := 0; i < n; i++ {
+		fd.MessageType = append(fd.MessageType, &descriptorpb.DescriptorProto{
+			Name: proto.String(fmt.Sprintf("Cyc%d", i)),
+			Field: []*descriptorpb.FieldDescriptorProto{
+				flat(fmt.Sprintf("Cyc%d", (i+1)%n)),
+				{Name: proto.String(fmt.Sprintf("v%d", i)), Number: proto.Int32(2), Label: opt, Type: descriptorpb.FieldDescriptorProto_TYPE_STRING.Enum()},
+			},
+		})
+	}
+	if lead {
+		fd.MessageType = append(fd.MessageType, &descriptorpb.DescriptorProto{
+			Name:  proto.String("CycLead"),
+			Field: []*descriptorpb.FieldDescriptorProto{flat("Cyc0")},
+		})
+	}
+}
+
+// addFlattenChain appends DeepTop -> Deep1 -> ... -> Deep<n>: every level reaches the next through a
+// flattened object field (number 7) and has properties of differing kinds before and after it, the
+// innermost has four. The client properties of DeepTop are then proto paths of every length up to
+// n+1 with several siblings at each depth (paths built by appending to a shared parent path).
+func addFlattenChain(fd *descriptorpb.FileDescriptorProto, n int) {
+	opt := descriptorpb.FieldDescriptorProto_LABEL_OPTIONAL.Enum()
+	scalar := func(name string, num int32, t descriptorpb.FieldDescriptorProto_Type) *descriptorpb.FieldDescriptorProto {
+		return &descriptorpb.FieldDescriptorProto{Name: proto.String(name), Number: proto.Int32(num), Label: opt, Type: t.Enum()}
+	}
+	flat := func(target string, msgStyle bool) *descriptorpb.FieldDescriptorProto {
+		fo := &descriptorpb.FieldOptions{}
+		if msgStyle {
+			proto.SetExtension(fo, ext_j5pb.E_Field, &ext_j5pb.FieldOptions{Type: &ext_j5pb.FieldOptions_Message{Message: &ext_j5pb.MessageFieldOptions{Flatten: true}}})
+		} else {
+			proto.SetExtension(fo, ext_j5pb.E_Field, &ext_j5pb.FieldOptions{Type: &ext_j5pb.FieldOptions_Object{Object: &ext_j5pb.ObjectField{Flatten: true}}})
+		}
+		return &descriptorpb.FieldDescriptorProto{Name: proto.String("inner"), Number: proto.Int32(7), Label: opt,
+			Type: descriptorpb.FieldDescriptorProto_TYPE_MESSAGE.Enum(), TypeName: proto.String("." + fd.GetPackage() + "." + target), Options: fo}
+	}
+	name := func(i int) string {
+		if i == 0 {
+			return "DeepTop"
+		}
+		return fmt.Sprintf("Deep%d", i)
+	}
+	for i := 0; i <= n; i++ {
+		m := &descriptorpb.DescriptorProto{Name: proto.String(name(i))}
+		m.Field = append(m.Field, scalar(fmt.Sprintf("s%d", i), 1, descriptorpb.FieldDescriptorProto_TYPE_STRING))
+		if i < n {
+			m.Field = append(m.Field, flat(name(i+1), i%2 == 0))
+			m.Field = append(m.Field, scalar(fmt.Sprintf("n%d", i), 9, descriptorpb.FieldDescriptorProto_TYPE_INT64))
+		} else {
+			m.Field = append(m.Field,
+				scalar(fmt.Sprintf("b%d", i), 2, descriptorpb.FieldDescriptorProto_TYPE_BOOL),
+				scalar(fmt.Sprintf("n%d", i), 3, descriptorpb.FieldDescriptorProto_TYPE_INT32),
+				scalar(fmt.Sprintf("t%d", i), 4, descriptorpb.FieldDescriptorProto_TYPE_STRING))
+		}
+		fd.MessageType = append(fd.MessageType, m)
+	}
+}
 
 // addOneofClash appends `message Clash { oneof foo_bar { option (j5.ext.v1.oneof).expose = true;
 // string a = 1; } string fooBar = 2; }`: protoc and protodesc accept it (JSON-name conflicts are
